@@ -1381,11 +1381,17 @@ def evaluate__parse_xml(self: XPathFunction, context: ta.ContextType = None) \
         raise self.missing_context()
 
     etree = context.etree
+    kwargs = {}
+    if hasattr(etree, 'TreeBuilder') and etree.__name__ == 'xml.etree.ElementTree':
+        # the parser of xml.etree drops comments and processing instructions by default
+        kwargs['parser'] = etree.XMLParser(
+            target=etree.TreeBuilder(insert_comments=True, insert_pis=True)
+        )
     try:
         if self.parser.defuse_xml:
-            root = etree.XML(defuse_xml(arg.encode('utf-8')))
+            root = etree.XML(defuse_xml(arg.encode('utf-8')), **kwargs)
         else:
-            root = etree.XML(arg.encode('utf-8'))
+            root = etree.XML(arg.encode('utf-8'), **kwargs)
     except etree.ParseError:
         raise self.error('FODC0006')
     else:
